@@ -395,27 +395,23 @@ def analyze(ctx, want):
     ob("C03.f", "all-merged-transitions-installed", not its and any(re.search(r"Vec::<.*>::push$", c) for c in calls), "adapters %s" % its, ut.loc())
     rn = F.fn(r"Minimizer::renumber_states_in_transitions$")
     ctx.analysed_fn(rn)
-    for c in F.closures_of(rn):
-        ex2, ps = run_fn(c, F, LogModel(), inline=r"ids::StateID::new$")
-        okr = False
-        for q in ps:
-            if q.end[0] == "return":
-                r = q.end[1]
-                cont = [(cc, o) for cc, o in q.conds if cc[0] == "app" and "contains" in cc[1]]
-                if cont and cont[-1][1] is True:
-                    okr = "item@" in S.fstr(r) and ".0" in S.fstr(r) and "state_id" in S.fstr(cont[-1][0])
-        ob("C03.f", "state-renumbered-to-the-index-of-its-group", okr, "renumbering closure", c.loc())
-    ex, paths = run_fn(rn, F, LogModel())
+    # every state id stored in the transition list — the source of an entry and each of its targets — is overwritten with the
+    # index of the group that contains the id it held (the lookup may be a closure, a helper, position(), a loop: it is analysed
+    # in place as the search it is)
+    from .common import hit_is_index_of
+    ex, paths = run_fn(rn, F, LogModel(), inline=r"ids::StateID::new$")
     both = {"src": False, "tgt": False}
+    bad_w = []
     for p in paths:
         for e in p.events:
-            if e[0] == "write" and e[2][0] != "local":
-                s_ = S.fstr(e[4])
-                if "find_group_of_state" in s_ or "closure" in s_ or "call" in s_:
-                    if any(st[1] == "0" for st in e[3] if st[0] == "f"):
-                        both["src"] = True
-                    else:
-                        both["tgt"] = True
+            if e[0] == "write" and e[2][0] != "local" and not (e[2][0] == "sym" and str(e[2][1]).startswith("__")):
+                old_s = S.fstr(e[2]) + "".join("." + str(st[1]) for st in e[3] if st[0] == "f")
+                hits = [c for c, o in p.conds if o is True and c[0] == "app" and re.search(r"BTreeSet::<.*>::contains", c[1]) and S.fstr(c[2][1]).lstrip("&*") == old_s and hit_is_index_of(e[4], c)]
+                if hits:
+                    both["src" if any(st[1] == "0" for st in e[3] if st[0] == "f") else "tgt"] = True
+                else:
+                    bad_w.append("%s := %s" % (old_s, S.fstr(e[4])[:50]))
+    ob("C03.f", "state-renumbered-to-the-index-of-its-group", not bad_w, "writes that are not 'index of the group containing the old id': %s" % bad_w[:3], rn.loc())
     ob("C03.f", "sources-and-targets-renumbered", both["src"] and both["tgt"], "renumbered: %s" % both, rn.loc())
     mt = F.fn(r"Minimizer::merge_transitions$")
     ctx.analysed_fn(mt)
